@@ -10,6 +10,8 @@ import RisorModel.C18.Model
   outcomes := per piece `ok:<value id>` | `parse` | `compile` | `fail`
   registers:= per piece `<stack height>:<ip at end of code 1/0>:<code grew 1/0>:<compiler stuck 1/0>`
   trace    := per piece the statements executed by that piece's run, `id` or `id~` (stale globals view)
+`histh <host names> <history>` → the same answer with the listed names (n.n.n or "-") defined as
+  host-supplied variables before the first piece (`Repl.init`, `SpecSt.init`, `guardHost`)
 `frag <instruction text>` → `accept <max height>` | `reject <why>`: the real fragment a piece added to
   the main code is position-independent (all jumps stay inside it), starts on an empty frame-relative
   stack, never reads below it and ends with exactly one value — C04's verified checker. -/
@@ -70,17 +72,24 @@ def specLog : SpecSt → List Piece → List (String × String)
 
 def bar (l : List String) : String := if l.isEmpty then "-" else "|".intercalate l
 
+/-- the answer to a history request; `host` = the host-supplied global names the history mentions -/
+def answerHist (host : List Nat) (ps : List Piece) : String :=
+  let il := implLog (Repl.init host) ps
+  let sl := specLog (SpecSt.init host) ps
+  let gs := violatedGuardsFrom (GSt.init host) ps
+  "\t".intercalate ["ok", bar (il.map (·.1)), bar (il.map (·.2.1)), bar (il.map (·.2.2)),
+    bar (sl.map (·.1)), bar (sl.map (·.2)), (if gs.isEmpty then "-" else ",".intercalate gs),
+    b01 (guardHost host ps)]
+
 def handle : List String → String
   | ["hist", h] =>
     match parseHist h with
     | none => "error\tbad-history"
-    | some ps =>
-      let il := implLog {} ps
-      let sl := specLog {} ps
-      let gs := violatedGuards ps
-      "\t".intercalate ["ok", bar (il.map (·.1)), bar (il.map (·.2.1)), bar (il.map (·.2.2)),
-        bar (sl.map (·.1)), bar (sl.map (·.2)), (if gs.isEmpty then "-" else ",".intercalate gs),
-        b01 (guard ps)]
+    | some ps => answerHist [] ps
+  | ["histh", host, h] =>
+    match parseList host, parseHist h with
+    | some hs, some ps => answerHist hs ps
+    | _, _ => "error\tbad-history"
   | ["frag", text] =>
     match C04.decode true text with
     | .error e => "error\t" ++ e
